@@ -1,0 +1,13 @@
+//go:build verif
+
+package table
+
+// VerifGateHook, when set, is called before every acquisition of the RIB mutex ("rib") and of the FIB lock ("fib"):
+// a conformance harness parks the calling goroutine there and releases it step by step.
+var VerifGateHook func(site string)
+
+func verifGate(site string) {
+	if h := VerifGateHook; h != nil {
+		h(site)
+	}
+}
